@@ -135,7 +135,8 @@ Print Assumptions C20_body_over_1023_never_delivered.
    any number of generated frames (any serial counter, any handler state), for every command and EVERY body
    of 1024..2047 bytes, the frame CreateCommandData produces is rejected by the decoder with the
    body-length error (the unmasked length sets bit 10 - the encryption flag - and announces len - 1024).
-   Beyond 2047 bytes the length spills into the fragment / version bits; there only the bound above and
+   Beyond 2047 bytes the excess reaches the other two encryption bits (2048..8191), then the fragment bit (8192..) and the
+   version bit (16384..); there only the bound above and
    the harness (bodies up to 4 023 bytes: all rejected) speak.  The witnesses below are instances
    (length 1024). *)
 Theorem C20_body_1024_2047_rejected : forall ver phone ps hst cmd body,
